@@ -19,6 +19,7 @@ from graphslam.vertex import Vertex
 from graphslam.edge.base_edge import BaseEdge
 from graphslam.edge.edge_odometry import EdgeOdometry
 from graphslam.edge.edge_landmark import EdgeLandmark
+from graphslam.pose.base_pose import BasePose
 from graphslam.pose.r2 import PoseR2
 from graphslam.pose.r3 import PoseR3
 from graphslam.pose.se2 import PoseSE2
